@@ -7,6 +7,9 @@ VERIF = os.path.dirname(os.path.dirname(os.path.abspath(__file__)))
 
 # id -> (technique, level text, level note, design ref)
 CHECKS = {
+    "C13": ("structural oracle over the values returned by the real tokenize / preparse / parse_cst on exhaustively enumerated lexeme strings, the corpus with all its prefixes/suffixes and token-level mutants, and random Unicode text",
+            "Runs the real parser::tokenize, parser::preparse and parser::parse_cst on every string over a ~100-lexeme table up to length 3 (quick) / 4 (thorough) with every separator choice, on every string of parser-structural tokens up to length 5 / 6, on every corpus file with its char-boundary prefixes and suffixes and token-level mutants, and on random Unicode-laden text; for each text it checks on the returned values that the tokens tile the input (contiguous, ordered, char boundaries, final zero-width Eof, concatenation == input), that the GreenNode token leaves are exactly the non-trivia tokens once and in order, and that every trivia token sits in exactly one trivia-map entry of the adjacent syntax token. Exhaustive within the stated bounds, sampled beyond; nothing is modelled.",
+            "Trusts the oracle's own trivia classification (4 kinds) and leaf walk; texts on which the code under test panics are counted as undecided (C04's subject). One known finding (file-leading trivia up to a line break is attached to no token) is matched by exact signature.", "DESIGN.md §3 C13"),
     "C14": ("oracle over real formatter runs: re-parse with the real parser, span-free AST comparison, comment-sequence and fixed-point checks on corpus files, their layout/comment mutations and generated programs at 24 (width, indent) configurations",
             "Runs the real mimium_fmt::pretty_print_cst on every shipped .mmm file that parses, on layout/comment mutations of them and on generated programs with randomised layout, at widths {1,8,20,40,50,80,120,200} x indents {2,4,8}; the output is re-parsed with the real parse_program/parse_to_expr and compared with the input (parse errors, span-insensitive tree equality, comment texts in order), and formatted again (fixed point). Sampled, not exhaustive; nothing is modelled.",
             "Trusts the harness' own tree view of Program/Expr/Type/Pattern (spans and interned ids dropped) and the real tokenizer for comment extraction. 23 known formatter defects (KNOWN_FINDINGS.txt, scope=sig) are matched by exact signature; at a configuration whose output does not parse the AST and idempotence clauses are not evaluated.", "DESIGN.md §3 C14"),
